@@ -55,6 +55,17 @@ VARIABLES l,      \* next line of the trace
 tvars == <<l, hd, tb, tx, ab, lk, ok>>
 
 ---------------------------------------------------------------------------
+(* try_reserve with amounts near the 64-bit limits (the trace carries a class code n < 0 and an offset j, see
+   harness decode_amount): which guard of the checked arithmetic must fire.  0 = Ok, 1 = CapacityOverflow,
+   2 = AllocError (the request is representable, the allocator refuses it), -1 = not determined here.
+   The numeric agreement of the helper functions with HbLayout is C17's job. *)
+TryClass(n, j, es) ==
+  CASE n \in {-1, -2, -3} -> 1                                   \* len + additional or additional * 8 wraps
+    [] n = -4 -> IF es >= 3 THEN 1 ELSE 2                          \* 2^61 buckets
+    [] n = -5 -> IF j >= 1 \/ es >= 1 THEN 1 ELSE 2               \* 2^62 buckets (or additional * 8 wraps)
+    [] n = -6 -> 2                                                 \* 2^41 buckets: representable, refused
+    [] OTHER -> -1
+
 ObsTable(s, es) ==
   [mask |-> s.m,
    ctrl |-> [i \in 0..(Len(s.c) - 1) |-> s.c[i + 1]],
@@ -270,10 +281,13 @@ OpStep(e) ==
         CASE e.op = "reserve" -> obsX[t].cap >= obsX[t].len + e.n
           [] e.op = "with_capacity" -> obsX[t].cap >= e.n
           [] e.op = "try_reserve" ->
-               IF e.r[1] = 0 THEN (e.n >= 0 => obsX[t].cap >= obsX[t].len + e.n)
-               ELSE /\ obsT[t] = pre /\ obsX[t] = prex /\ e.dr = <<>>        \* error: nothing changed, nothing leaked
-                    /\ \A i \in 1..Len(e.al) : e.al[i][1] = 0                \* only the refused request
-                    /\ (e.r[1] = 2 => \E i \in 1..Len(e.al) : e.al[i][2] = e.r[2] /\ e.al[i][3] = e.r[3])
+               /\ (TryClass(e.n, e.j, hd.es) # -1 => e.r[1] = TryClass(e.n, e.j, hd.es))
+               \* a representable request fails only because the allocator refused it
+               /\ (e.n >= 0 /\ e.r[1] # 0 => e.r[1] = 2 /\ \E i \in 1..Len(e.al) : e.al[i][1] = 0)
+               /\ (IF e.r[1] = 0 THEN (e.n >= 0 => obsX[t].cap >= obsX[t].len + e.n)
+                   ELSE /\ obsT[t] = pre /\ obsX[t] = prex /\ e.dr = <<>>        \* error: nothing changed, nothing leaked
+                        /\ \A i \in 1..Len(e.al) : e.al[i][1] = 0                \* only the refused request
+                        /\ (e.r[1] = 2 => \E i \in 1..Len(e.al) : e.al[i][2] = e.r[2] /\ e.al[i][3] = e.r[3]))
           [] e.op \in {"shrink_to", "shrink_to_fit"} ->
                LET m == IF e.op = "shrink_to" THEN e.n ELSE 0
                    lo == IF m < prex.cap THEN m ELSE prex.cap
